@@ -36,6 +36,10 @@ Perturbations
            exception (unknown symbol / isotope / charge, unbalanced bracket, bare '@', percentages above 100, no
            density, unknown packing factor, invalid sequence code, missing FASTA file, ... on the public and on a
            private table; 30 kinds, each verified to raise when the task starts): a rejected call leaves nothing behind
+  aged     when a search has finished, the process is AGED (`age()`: 6 000 distinct formula structures counted, every ion
+           of every isotope looked up, 24 further private tables created and used for a parse, 3 000 distinct strings
+           parsed on the public table) and the first 24 cases of the search are judged again by the same oracle:
+           what was right early in the life of a process is right late in it (bounded caches, counters, recycled slots)
 Tasks of the history properties fork one interpreter per history and must start from a process that never
 imported periodictable, so `imports` and `thread` are not applied to C08, C09 and C10.
 """
@@ -43,7 +47,7 @@ import hashlib
 import os
 import sys
 
-BITS = ["cwd", "numpy", "thread", "gc", "imports", "decimal", "pyparsing", "reload", "subclass", "rejects"]
+BITS = ["cwd", "numpy", "thread", "gc", "imports", "decimal", "pyparsing", "reload", "subclass", "rejects", "aged"]
 NO_PRELOAD = {"C08", "C09", "C10"}
 RELOADABLE = ["nsf", "xsf", "activation", "fasta", "cromermann", "util", "magnetic_ff", "covalent_radius",
               "crystal_structure"]
@@ -68,12 +72,12 @@ def choose(seed, prop, task, mod=None, idx=None):
     if prop in NO_PRELOAD:
         on = [b for b in on if b not in ("imports", "thread")]
     if prop in NO_PRELOAD:
-        on = [b for b in on if b not in ("reload", "rejects")]
+        on = [b for b in on if b not in ("reload", "rejects", "aged")]
     # tasks whose first periodictable action is part of the case (initialisation routes, private-first
     # configurations) are named by the module: PRISTINE_TASKS = ("route-", ...) name prefixes, or PRISTINE = True
     if mod is not None and (getattr(mod, "PRISTINE", False)
                             or any(task.startswith(p) for p in getattr(mod, "PRISTINE_TASKS", ()))):
-        on = [b for b in on if b not in ("imports", "reload", "rejects")]
+        on = [b for b in on if b not in ("imports", "reload", "rejects", "aged")]
     if mod is not None:
         on = [b for b in on if b not in getattr(mod, "AMBIENT_SKIP", ())]
     if task.startswith("fuzz"):
@@ -83,7 +87,8 @@ def choose(seed, prop, task, mod=None, idx=None):
 
 def enter(on, seed, prop, task, repo):
     """Apply the perturbations named in *on* to this process.  Returns a dict of run-time switches for Ctx."""
-    sw = {"thread": "thread" in on, "gc": "gc" in on, "names": list(on), "rejects": "rejects" in on}
+    sw = {"thread": "thread" in on, "gc": "gc" in on, "names": list(on), "rejects": "rejects" in on,
+          "aged": "aged" in on}
     if "cwd" in on:
         import tempfile
         import warnings
@@ -134,6 +139,39 @@ def enter(on, seed, prop, task, repo):
     return sw
 
 
+_AGE = [0]
+
+
+def age(light=False):
+    """Make the process old: many distinct structures, ions, tables and strings pass through the library."""
+    import periodictable as pt
+    from periodictable import core, mass, density
+    _AGE[0] += 1
+    k = _AGE[0]
+    H, O, C = pt.elements.H, pt.elements.O, pt.elements.C
+    for i in range(1, 1500 if light else 6001):
+        f = pt.formula({C: i, H: 2 * i + k, O: 1 + (i % 7)})
+        f.atoms
+        if i % 50 == 0:
+            f.mass, f.charge, f.hill
+    n = 0
+    for el in pt.elements:
+        for iso in el:
+            for c in el.ions:
+                iso.ion[c]
+                n += 1
+        for c in el.ions:
+            el.ion[c]
+    for j in range(6 if light else 24):
+        T = core.PeriodicTable("aged-%d-%d" % (k, j))
+        mass.init(T)
+        density.init(T)
+        pt.formula("C%dH%dO" % (j + 2, 2 * j + 1), table=T).atoms
+    for i in range(1, 400 if light else 3001):
+        pt.formula("C%dH%dN%dO" % (i, 2 * i + 1, 1 + i % 5)).atoms
+    return n
+
+
 _REJECTS = []
 
 
@@ -160,6 +198,9 @@ def rejected_call(n):
             lambda: pt.formula("NaCl").volume("dodecahedral"), lambda: pt.elements.H.ion[1].xray.f0(0.5),
             lambda: nsf.neutron_composite_sld(["Qq"], wavelength=1.0),
             lambda: fasta.Sequence.load("/nonexistent/file.fasta"),
+            # the free neutron has no x-ray table (its file name would be nitrogen's)
+            lambda: pt.xray_sld(pt.elements[0], density=1.0, energy=8.0),
+            lambda: pt.elements[0].xray.sld(energy=8.0),
         ]
         for fn in cand:
             try:
